@@ -605,11 +605,6 @@ def classify(f):
     if f.get('kind') not in ('tree', 'write'):
         return None
     msg = f['msg']
-    nodes = _nodes(f['tree'])
-    # a block definition with step -1: _find_slice_overlap calls _reverse_slice on a slice of step +1
-    if 'only applicable to slices with negative step' in msg and \
-            any(n['kind'] == 'blocks' and any(x[2] == -1 for a in n['arrangement'] for x in a) for n in nodes):
-        return 'block-reversed-definition'
     kept = _complex_kept_leaves(f['tree'])
     if kept and ('refused' in msg or 'raised' in msg) and 'Slicing along the complex dimension' in msg:
         return 'complex-kept-band-nonunit-step'
@@ -619,13 +614,6 @@ def classify(f):
             raw_axis = leaf['trans'][bd] if leaf.get('trans') is not None else bd
             if leaf.get('rev') and raw_axis in leaf['rev']:
                 return 'complex-kept-band-reversed-band-axis'
-    # raw-basis subset over a parent with a complex / LUT format function: transform_raw_slice of those classes
-    for n in nodes:
-        if n['kind'] == 'subset' and n.get('basis') == 'raw' and n['parent'].get('fmt'):
-            return 'complex-transform-raw-slice' if n['parent']['fmt']['kind'] == 'complex' else 'lut-transform-raw-slice'
-    # 2-d lookup table: SingleLUTFormatFunction.__call__ is handed the raw subscript
-    if any(n.get('fmt') and n['fmt']['kind'] == 'lut' and isinstance(n['fmt']['table'][0], list) for n in nodes):
-        return 'lut-2d-raw-subscript'
     return None
 
 
@@ -735,7 +723,9 @@ def run(tier):
                 case = json.load(open(os.path.join(corpus, fn)))
                 if case.get('kind') == 'tree':
                     ncorp += 1
+                    n0 = len(fails)
                     check_tree(case['tree'], [case['sub']], tmpdir, fails, stats)
+                    del fails[n0 + 1:]          # one report per corpus case
         ntrees = 150 if tier == 'quick' else 2500
         per = 14 if tier == 'quick' else 30
         for _ in range(ntrees):
@@ -794,11 +784,11 @@ def run(tier):
         'mirror of data_segment.py / format_function.py (no translator); it is tied to the code by the provenance correspondence of this run '
         '(array / memmap / file-read leaves, reverse + transpose, ReorientationSegment, subsets with and without squeezed axes in the formatted '
         'basis and, over identity-format parents, in the raw basis, band and block aggregates with holes and with block definitions of step -1, '
-        'ComplexFormatFunction IQ/QI/MP/PM with the band axis collapsed or kept, SingleLUTFormatFunction with a 1-d table); the theorem holds on '
+        'ComplexFormatFunction IQ/QI/MP/PM with the band axis collapsed or kept, SingleLUTFormatFunction with a 1-d or 2-d table); the theorem holds on '
         'the set of subscripts the code serves (Seg.accepts, also executed by the correspondence: a refusal of the code must be a refusal of '
         'the model and vice versa); MP/PM and LUT pixel values are named functions of the stored samples in the theorem (numerics: C08) and are '
-        'tied by value with a tolerance; raw-basis subsets over subsets / complex / LUT parents and 2-d lookup tables are tied by the numpy '
-        'oracle only (listed defects)',
+        'tied by value with a tolerance; raw-basis subsets over subsets / complex / LUT parents are tied by the numpy oracle only; block '
+        'definitions of step -1 and 2-d lookup tables are modelled as the repaired code serves them (patches F1, F5 of NOTES_SEGFIX)',
         'JPEG/JPEG2000/HDF5 segments outside the model',
     ]
 
